@@ -34,7 +34,9 @@ RULE = ("layer 1: every (oxml element class, attribute property) binding x {XSD 
         "bounds; for reading every lexical alternative derived from the XSD facets and union members (N, +N, "
         "00N, -0, N%, -1.5%, 1.5pt/2in/3mm/cm/pc/pi, true/false/1/0, double forms incl. INF/NaN, hex cases, "
         "every enumeration token, guide names) that libxml2 accepts for the type, plus Hypothesis strings from "
-        "the XSD patterns; unbound simple-type classes through to_xml/from_xml. Layer 2: public setters x value "
+        "the XSD patterns; read->assign->compare of integer lexicals over each scaled type's range (a value the "
+        "schema represents exactly must be written back unchanged); unbound simple-type classes through "
+        "to_xml/from_xml. Layer 2: public setters x value "
         "families x {fresh object, object holding a valid value}. Non-trivial: the value is wrong-typed for the "
         "attribute, or lies within 1.5 quanta of an XSD bound / of a rounding threshold / of 0 or 360 degrees, "
         "or (reading) the lexical form is not the canonical integer/token form. Distinct by (simple type, XSD "
@@ -49,6 +51,8 @@ ASSUMPTIONS = [
     "scaling overflows a double)",
     "XsdAnyUri, XsdId, ST_ContentType, ST_Extension are documented as unvalidated: only round-tripped",
     "lexical forms valid only through XSD whitespace collapsing are not generated",
+    "a value obtained by reading an integer lexical form is exactly representable: assigning it back must write "
+    "the same integer (no tolerance), whereas arbitrary values may land up to one quantum away",
     "a setter that accepts less than the schema allows is reported in coverage.accepts_less, not as a violation",
     "layer 2: a rejected assignment may leave behind empty, attribute-less, schema-valid elements (a:pPr, "
     "a:srcRect, ...); anything else (schema-invalid leftovers, removed or changed content) counts as written",
@@ -940,6 +944,8 @@ def _rw_lexicals(b):
             step = max(1, (hi - lo) // 96)
             out += [str(k) for k in range(lo, hi + 1, step)]
             out += [str(k) for k in (7, 13, 29, 57, 1001, 28999, 32300, 57000, 99999, 115000) if lo <= k <= hi]
+    if b["kind"] != "float":
+        out = [x for x in out if _in_bounds(b, int(x))]  # not the integers valid only as ST_AdjCoordinate guide names
     seen = set()
     return [x for x in out if not (x in seen or seen.add(x))]
 
@@ -1068,12 +1074,8 @@ def _note(rec, case, res):
                  classes=["api:%s" % oc, "api-op:" + case["op"]])
 
 
-def _mag(v):
-    return str(v) if abs(v) < 10 ** 15 else "%.3g" % v
-
-
 def _api_near(op, spec):
-    v = spec["v"] if isinstance(spec, dict) and spec.get("t") == "length" and isinstance(spec.get("v"), (int, float)) else spec
+    v = spec
     if isinstance(spec, dict) and spec.get("t") == "length":
         try:
             v = int(M.dec(spec))
@@ -1165,7 +1167,7 @@ def _lex_strategy(b):
                     if "\\p{" in pat:
                         continue
                     try:
-                        parts.append(st.from_regex(re.compile(pat.replace("[0-9]", "[0-9]"), re.ASCII), fullmatch=True))
+                        parts.append(st.from_regex(re.compile(pat, re.ASCII), fullmatch=True))
                     except re.error:
                         pass
     if not parts or not interesting:
@@ -1255,6 +1257,10 @@ def run_job(job, seed, tier, rec, known):
                 res = None
                 try:
                     res = run_case(case)
+                except Violation as viol:
+                    if viol.key not in known:
+                        raise
+                    rec.known[viol.key] += 1  # keep going: the rest of the batch lies behind a listed finding
                 finally:
                     _note(rec, case, res)
 
